@@ -8,7 +8,7 @@ use crate::plan::{Code, Doc, Intent, Op, Plan};
 use crate::reg::Reg;
 use crate::rng::Rng;
 use crate::scripts::ScriptGen;
-use crate::values::{doc_for, gen_args, gen_value, gen_wrong, Pool};
+use crate::values::{doc_for, doc_omitting, gen_args, gen_value, gen_wrong, Pool};
 use crate::world::{account_addr, ContractInfo, RunRecord};
 use rt::spec::{Entry, HandlerSpec, Kind};
 use serde_json::{json, Map, Value};
@@ -56,24 +56,6 @@ pub fn simple_world(rng: &mut Rng, reg: &Reg, pool: &[&Entry], n: usize, custom_
     WorldPlan { custom_chain, twin: false, accounts, codes, codes1: vec![], setup }
 }
 
-/// an `Option` argument that is `None` may simply be left out of the document
-pub fn drop_null_members(doc: &Value, rng: &mut Rng) -> Value {
-    let mut d = doc.clone();
-    if let Some(o) = d.as_object_mut() {
-        if o.len() == 1 {
-            if let Some(body) = o.values_mut().next().and_then(|b| b.as_object_mut()) {
-                let nulls: Vec<String> = body.iter().filter(|(_, v)| v.is_null()).map(|(k, _)| k.clone()).collect();
-                for k in nulls {
-                    if rng.chance(1, 2) {
-                        body.remove(&k);
-                    }
-                }
-            }
-        }
-    }
-    d
-}
-
 pub struct TrafficGen<'a> {
     pub sg: ScriptGen<'a>,
     pub codes: &'a [Code],
@@ -93,6 +75,37 @@ impl<'a> TrafficGen<'a> {
         e.spec.of_kind(kind).filter(|h| !self.sg.regular_only || h.regular).collect()
     }
 
+    /// A long history against one part of one contract: `n` plain messages of one kind, all for
+    /// handlers of the same part (code under test that keeps state across calls -- caches,
+    /// counters, tables that reorganise themselves -- only shows it late).
+    pub fn hammer(&mut self, rng: &mut Rng, n: u64) -> Vec<Op> {
+        let c = rng.pick(self.sg.contracts).clone();
+        let kind = *rng.pick(&[Kind::Exec, Kind::Exec, Kind::Query, Kind::Sudo]);
+        let hs = self.handlers(&c, kind);
+        if hs.is_empty() {
+            return vec![];
+        }
+        let part = rng.pick(&hs).part;
+        let hs: Vec<&HandlerSpec> = hs.into_iter().filter(|h| h.part == part).collect();
+        let keep = self.sg.fail_pm;
+        self.sg.fail_pm = 10;
+        let accounts = self.sg.accounts;
+        let mut ops = vec![];
+        for _ in 0..n {
+            let h = *rng.pick(&hs);
+            let mut args = self.sg.args_for(rng, &c.cid, h, 99);
+            let doc = doc_omitting(h, &mut args, rng);
+            let intent = Some(Intent { hid: h.id(), args: Value::Object(args), cid: c.cid.clone() });
+            ops.push(match kind {
+                Kind::Exec => Op::Exec { target: c.addr.clone(), sender: rng.pick(accounts).clone(), msg: Doc::json(&doc), funds: vec![], intent },
+                Kind::Query => Op::Query { target: c.addr.clone(), msg: Doc::json(&doc), intent },
+                _ => Op::Sudo { target: c.addr.clone(), msg: Doc::json(&doc), intent },
+            });
+        }
+        self.sg.fail_pm = keep;
+        ops
+    }
+
     /// one spec-built operation against a random contract
     pub fn op(&mut self, rng: &mut Rng) -> Option<Op> {
         let mut c = rng.pick(self.sg.contracts).clone();
@@ -107,7 +120,8 @@ impl<'a> TrafficGen<'a> {
                     return None;
                 }
                 let h = *rng.pick(&hs);
-                let args = self.sg.args_for(rng, &c.cid, h, 0);
+                let mut args = self.sg.args_for(rng, &c.cid, h, 0);
+                let doc = doc_omitting(h, &mut args, rng);
                 let funds = match rng.below(9) {
                     0 => vec![Coin::new(rng.range(1, 40) as u128, "ucoin")],
                     1 => vec![Coin::new(rng.range(1, 9) as u128, "uatom"), Coin::new(3u128, "ucoin")],
@@ -120,7 +134,7 @@ impl<'a> TrafficGen<'a> {
                 Some(Op::Exec {
                     target: c.addr.clone(),
                     sender: rng.pick(accounts).clone(),
-                    msg: Doc::json(&drop_null_members(&doc_for(h, &args), rng)),
+                    msg: Doc::json(&doc),
                     funds,
                     intent: Some(Intent { hid: h.id(), args: Value::Object(args), cid: c.cid.clone() }),
                 })
@@ -131,10 +145,11 @@ impl<'a> TrafficGen<'a> {
                     return None;
                 }
                 let h = *rng.pick(&hs);
-                let args = self.sg.args_for(rng, &c.cid, h, 0);
+                let mut args = self.sg.args_for(rng, &c.cid, h, 0);
+                let doc = doc_omitting(h, &mut args, rng);
                 Some(Op::Query {
                     target: c.addr.clone(),
-                    msg: Doc::json(&drop_null_members(&doc_for(h, &args), rng)),
+                    msg: Doc::json(&doc),
                     intent: Some(Intent { hid: h.id(), args: Value::Object(args), cid: c.cid.clone() }),
                 })
             }
@@ -144,10 +159,11 @@ impl<'a> TrafficGen<'a> {
                     return None;
                 }
                 let h = *rng.pick(&hs);
-                let args = self.sg.args_for(rng, &c.cid, h, 0);
+                let mut args = self.sg.args_for(rng, &c.cid, h, 0);
+                let doc = doc_omitting(h, &mut args, rng);
                 Some(Op::Sudo {
                     target: c.addr.clone(),
-                    msg: Doc::json(&drop_null_members(&doc_for(h, &args), rng)),
+                    msg: Doc::json(&doc),
                     intent: Some(Intent { hid: h.id(), args: Value::Object(args), cid: c.cid.clone() }),
                 })
             }
@@ -170,7 +186,7 @@ impl<'a> TrafficGen<'a> {
                 let h = ne.spec.of_kind(Kind::Migrate).next()?;
                 let cross = new_cid != c.cid;
                 let admin_sender = cross || rng.chance(3, 4);
-                let args = if cross {
+                let mut args = if cross {
                     // keep the generator's model of who lives where exact: no scripted failure
                     let keep = self.sg.fail_pm;
                     self.sg.fail_pm = 0;
@@ -180,6 +196,7 @@ impl<'a> TrafficGen<'a> {
                 } else {
                     self.sg.args_for(rng, &new_cid, h, 0)
                 };
+                let doc = doc_omitting(h, &mut args, rng);
                 let sender = if admin_sender { accounts[3].clone() } else { rng.pick(accounts).clone() };
                 if cross {
                     self.model.retain(|(a, _)| *a != c.addr);
@@ -189,7 +206,7 @@ impl<'a> TrafficGen<'a> {
                     target: c.addr.clone(),
                     sender,
                     code,
-                    msg: Doc::json(&doc_for(h, &args)),
+                    msg: Doc::json(&doc),
                     intent: Some(Intent { hid: h.id(), args: Value::Object(args), cid: new_cid }),
                 })
             }
@@ -200,11 +217,12 @@ impl<'a> TrafficGen<'a> {
                     return None;
                 }
                 let h = e.spec.of_kind(Kind::Instantiate).next()?;
-                let args = self.sg.args_for(rng, e.spec.cid, h, 0);
+                let mut args = self.sg.args_for(rng, e.spec.cid, h, 0);
+                let doc = doc_omitting(h, &mut args, rng);
                 Some(Op::Instantiate {
                     code,
                     sender: rng.pick(accounts).clone(),
-                    msg: Doc::json(&doc_for(h, &args)),
+                    msg: Doc::json(&doc),
                     label: format!("dyn{}", self.sg.nonce()),
                     admin: if rng.chance(1, 2) { Some(accounts[3].clone()) } else { None },
                     funds: vec![],
@@ -244,6 +262,10 @@ impl Profile for Dispatch {
         sg.typed_pct = *rng.pick(&[0, 50, 100]);
         sg.max_depth = rng.range(0, 3 + crate::extra_depth()) as u32;
         let mut tg = TrafficGen { sg, codes: &wp.codes, cross_migrate: rng.chance(1, 2), model: vec![] };
+        if rng.chance(1, crate::LONG_RUN_ONE_IN) {
+            let n = rng.range(258, 330);
+            return tg.hammer(rng, n);
+        }
         let n = rng.range(3, 14 * crate::scale());
         (0..n).filter_map(|_| tg.op(rng)).collect()
     }
@@ -269,7 +291,23 @@ pub fn mutate_doc(rng: &mut Rng, doc: &Value, other_names: &[String], cells: &mu
         }
         let Some(o) = v.as_object_mut() else { break };
         let key = o.keys().next().cloned();
-        match rng.below(15) {
+        match rng.below(16) {
+            15 => {
+                // an unknown name in front of a long body with text outside ASCII: the error has
+                // to echo / list whatever it does without falling over
+                if let Some(k) = key {
+                    let mut body = o.remove(&k).unwrap();
+                    let ch = *rng.pick(&["\u{e9}", "\u{20ac}", "\u{1F600}", "\u{17c}"]);
+                    let n = rng.range(20, 90) as usize;
+                    let pad: String = format!("{}{}", "x".repeat(rng.below(4) as usize), ch.repeat(n));
+                    if let Some(b) = body.as_object_mut() {
+                        b.insert(if rng.chance(1, 2) { "memo".to_string() } else { pad.clone() }, json!(pad));
+                    }
+                    let name = if rng.chance(1, 3) { format!("{}_{}", k, ch) } else { format!("{}x", k) };
+                    o.insert(name, body);
+                    cells.push("long_unknown");
+                }
+            }
             14 => {
                 // names the generator reserves for itself must not be messages
                 v = rng.pick(&[json!({"__phantom": null}), json!({"_phantom": null}), json!({"__phantom": {}}), json!({"__phantom": []}), json!({"_Phantom": null})]).clone();
@@ -303,11 +341,15 @@ pub fn mutate_doc(rng: &mut Rng, doc: &Value, other_names: &[String], cells: &mu
                 }
             }
             4 => {
-                v = match rng.below(5) {
+                v = match rng.below(8) {
                     0 => json!([v]),
                     1 => json!("go"),
                     2 => json!(7),
                     3 => Value::Null,
+                    // the bare name of a message (serde's spelling of a unit variant): of this very
+                    // document, or of any message around
+                    4 | 5 => json!(key.clone().unwrap_or_default()),
+                    6 if !other_names.is_empty() => json!(rng.pick(other_names).clone()),
                     _ => json!(true),
                 };
                 cells.push("not_object");
@@ -441,6 +483,10 @@ impl Profile for WireFaults {
         sg.max_depth = 1;
         sg.typed_pct = 0;
         let mut tg = TrafficGen { sg, codes: &wp.codes, cross_migrate: false, model: vec![] };
+        if rng.chance(1, crate::LONG_RUN_ONE_IN) {
+            let n = rng.range(258, 330);
+            return tg.hammer(rng, n);
+        }
         let n = rng.range(3, 10 * crate::scale());
         let mut ops = vec![];
         for _ in 0..n {
